@@ -1,7 +1,32 @@
-//! Scenario crate `scn-exchange` (chain-level simulation on the chainsim runtime).
+//! Scenario crate `scn-exchange`: the exchange lifecycle on the in-process cluster.
 
-pub const PROPERTIES: &[&str] = &[];
+pub mod exchange;
 
-pub fn registry(_property: &str) -> Option<simcore::CheckSpec> {
-    None
+use simcore::{CheckSpec, Part};
+
+pub const PROPERTIES: &[&str] = &["C22", "C23", "C44", "C21", "C09", "C19"];
+
+const CHAIN_ASSUMPTIONS: &[&str] = &[
+    "programs run natively on the host, not in the SBF VM: compute budget, stack/heap limits and transaction size are not modelled",
+    "signatures are not verified (a signer is a flag on the account meta); the runtime stub enforces Solana's privilege rules and transaction atomicity",
+    "oracle prices come from custom Chainlink price feeds through the mock verifier; Pyth / Switchboard paths are not covered",
+    "a clean batch is evidence over the sampled plans, not a proof",
+];
+
+fn assumptions(extra: &[&str]) -> Vec<String> {
+    CHAIN_ASSUMPTIONS.iter().chain(extra.iter()).map(|s| s.to_string()).collect()
+}
+
+pub fn registry(property: &str) -> Option<CheckSpec> {
+    let (level, q, t, extra): (&'static str, u64, u64, Vec<&str>) = match property {
+        "C22" => ("exploration", 3_000, 100_000, vec![]),
+        "C23" => ("fault_enumeration", 3_000, 100_000, vec!["GLV actions are covered by the GLV scenario"]),
+        "C44" => ("exploration", 3_000, 100_000, vec!["hop-by-hop balance oracle is applied to swap orders; deposits/withdrawals/position orders with paths are checked for path validity at creation and for solvency"]),
+        "C21" => ("fault_enumeration", 3_000, 100_000, vec!["chain part: every soft-failed execution is followed by a fork comparison (world with the abandoned operation vs world without it)"]),
+        "C09" => ("exploration", 3_000, 100_000, vec!["chain part: liquidations always close the whole position; health predicates are checked in marketsim"]),
+        "C19" => ("fault_enumeration", 2_000, 60_000, vec![]),
+        _ => return None,
+    };
+    let property: &'static str = PROPERTIES.iter().find(|p| **p == property)?;
+    Some(CheckSpec { property, level, parts: vec![Part::new(exchange::Exchange, q, t)], assumptions: assumptions(&extra) })
 }
